@@ -149,7 +149,7 @@ func TestC09(t *testing.T) {
 		{Kind: "permuted", Packed: true, EmptyRun: true},
 		{Kind: "ordered", Packed: true, EmptyRun: true, NonMinimal: true},
 	}
-	nvi := r.Pick(6, len(c09Vals)*4)
+	nvi := r.Pick(len(c09Vals), len(c09Vals)*4)
 	perms := r.Pick(2, 12)
 	for typ := uint64(0); typ < 6; typ++ {
 		for vi := 0; vi < nvi; vi++ {
